@@ -136,6 +136,7 @@ class C19(Prop):
             else:
                 flen = rng.choice([ln, ln - rng.range(1, 4095), ln + 100])
                 m["file_len"] = flen
+                m["foff_pages"] = rng.choice([0, 0, 1, 3])   # the mapping starts this far into its file
                 disk, plant, erase = [], [], []
                 for o in offs:
                     c = rng.below(3)
